@@ -59,12 +59,21 @@ def _gen_lamps(ch: Chooser):
         occ.take(proto, x, y)
         name = f"e{k + 1}"
         c.stmts.append(["place", name, proto, ["lit", x, 10], ["lit", y, 10], None])
-        form = ch.weighted([(4, "inline"), (2, "named"), (2, "expr"), (3, "sel"),
+        form = ch.weighted([(4, "inline"), (2, "mirror"), (2, "named"), (2, "expr"), (3, "sel"),
                             (3 if bundles else 0, "anyall"), (1 if bundles else 0, "bsel")])
         thr = ch.i32_biased(-30, 30)
         c.thresholds.add(thr)
         if form == "inline":
             e = ["bin", ch.pick(lang.CMP_OPS), g.sig_leaf(), ["lit", thr, 10]]
+        elif form == "mirror":
+            # literal side on the LEFT, written as a typed signal literal (alone or in constant
+            # arithmetic that folds), computed signal on the right: the placed comparison is
+            # mirrored before it is inlined into the entity
+            lit_ = ["siglit", ch.pick(gen.VIRTUALS), ["lit", ch.rint(-20, 40), 10]]
+            if ch.chance(2, 3):
+                lit_ = ["bin", ch.pick(["+", "-", "*"]), lit_, ["lit", ch.rint(1, 3), 10]]
+            rhs = g.sig_leaf() if ch.chance(1, 3) else ["bin", ch.pick(["*", "+"]), g.sig_leaf(), ["lit", ch.rint(2, 4), 10]]
+            e = ["bin", ch.pick(lang.CMP_OPS), lit_, rhs]
         elif form == "named":
             nm = c.fresh("c")
             c.stmts.append(["decl", "Signal", nm, ["bin", ch.pick(lang.CMP_OPS), g.sig_leaf(), ["lit", thr, 10]]])
